@@ -8,7 +8,7 @@
    onto the stored CRC bytes, i.e. the stored value becomes crc_spec m xor le esb.
    The reader's check is   crc_spec (received message) =? received stored value.
 
-   Main facts proved here (no admits, no axioms):
+   Main facts proved here (everything is closed under the global context):
    * crc_raw is affine over xor (crc_raw_affine), hence the check passes on the
      corrupted data iff the SYNDROME  crc_raw 0 e xor es  is zero (undetected_iff);
    * with E = le (e ++ esb) the error pattern of the whole region read as one
@@ -350,8 +350,6 @@ Qed.
 
 Definition nodiv_step (st : N * bool) : N * bool :=
   (N.succ (fst st), snd st && negb (period mod (fst st) =? 0)).
-
-Definition nodiv_check : bool := snd (N.iter 46340 nodiv_step (2, true)).
 
 Lemma nodiv_iter : forall n k0 b,
   fst (N.iter n nodiv_step (k0, b)) = k0 + n /\
